@@ -176,6 +176,7 @@ YY_BUFFER_STATE tokenizer_buf(TOKEN_SCANNER scanner)
       if (tmp == 0)
       {
         free(str);
+        yy_fatal_error("out of dynamic memory in tokenizer_buf()", scanner->scanner);
         return 0;
       }
       str = tmp;
